@@ -324,3 +324,6 @@ def decide_inconclusive(obs, results, cases):
     if obs.get('partial_timer', 0) == 0 or obs.get('full', 0) == 0 or obs.get('partial_end', 0) == 0:
         return 'the timing monitor never saw one of: timer-released partial batch, full batch, end-closed batch'
     return None
+
+
+RULE = RULE + '; the marker arrives as an equal, distinct object; spawn-context multiprocessing.Queue rounds'
